@@ -18,6 +18,19 @@ def bitmap_loops(op, mw):
             "h_ledger_find#0": 9}
 
 
+def htab_ob(nops, nkeys, timeout):
+    S = 2 if nops <= 2 else 4 if nops <= 4 else 8       # largest element array any sequence of nops inserts reaches
+    loops = {"HTAB_h_el_do#0": 2 * S + 1, "HTAB_h_el_do#1": S // 2 + 1, "HTAB_h_el_do#2": 2 * S + 4,
+             "HTAB_h_el_clear#0": S + 1, "HTAB_h_el_clear#1": 2 * S + 1, "HTAB_h_el_create#0": 3, "HTAB_h_el_create#1": 6,
+             "harness#0": nkeys + 1, "harness#1": nkeys + 1, "harness#2": nops + 1, "harness#3": nkeys + 1,
+             "h_ledger_live#0": 9, "h_ledger_find#0": 9}
+    return Ob("htab.seq%d.keys%d" % (nops, nkeys), "C19/htab.c",
+              defs=["H_NOPS=%d" % nops, "H_NKEYS=%d" % nkeys, "H_ELS_CAP=%d" % S, "H_SLOT_MAX=8"],
+              loops=loops, unwind=3, unwindset={"HTAB_h_el_do": 1}, checks="memsafe", timeout=timeout,
+              sample="HTAB: every sequence of <= %d ops from {FIND,INSERT,REPLACE,DELETE,clear} x %d keys x values < 256 from "
+                     "create(min_size 2); the %d hash values are arbitrary 32-bit numbers" % (nops, nkeys, nkeys))
+
+
 def obligations(tier):
     obs = []
     maxw = 3 if tier == "quick" else 4
@@ -29,6 +42,19 @@ def obligations(tier):
                       checks="memsafe", timeout=1200, solver="cadical" if bitloop else None,
                       sample="bitmap_%s: 3 bitmaps of 0..%d arbitrary words, capacity arbitrary, operands any aliasing, bit numbers < %d"
                              % (name, mw, (mw + 1) * 64)))
+    for op, name in {1: "push", 2: "pop", 3: "push_arr", 4: "expand", 5: "tailor", 6: "trunc_set_get_last"}.items():
+        ml = 6 if tier == "quick" else 10
+        obs.append(Ob("varr." + name, "C19/varr.c", defs=["OP=%d" % op, "H_MAXL=%d" % ml, "H_SLOT_MAX=8"], unwind=ml + 6,
+                      checks="memsafe", timeout=600,
+                      sample="VARR_%s from an arbitrary state: length 0..%d, capacity length..%d, contents arbitrary" % (name, ml, ml + 2)))
+    nd_ops = 4 if tier == "quick" else 6
+    obs.append(Ob("dlist.seq%d" % nd_ops, "C19/dlist.c", defs=["H_NOPS=%d" % nd_ops, "H_NN=4"], unwind=max(7, nd_ops + 2), checks="memsafe",
+                  timeout=2400, sample="DLIST: every sequence of <= %d ops from {prepend,append,insert_before,insert_after,remove} over 4 nodes, "
+                  "observed after every op by forward/backward walks, length and DLIST_EL(n) for every n in [-5,5]" % nd_ops))
+    if tier == "quick":
+        obs.append(htab_ob(3, 3, 900))
+    else:
+        obs.append(htab_ob(4, 4, 3000))
     return obs
 
 
